@@ -27,14 +27,19 @@ def gen_cases(ctx, count, gammas):
         if ref.max_bits > solverun.BIT_BUDGET:
             continue
         mb = solverun.pick_mb(rng, spec["nS"])
-        out.append({"seed": sub, "spec": spec, "g": str(g), "V": [str(x) for x in V], "mb": mb, "bits": ref.max_bits})
+        # half of the cases: the solver is BUILT (and its kernels traced by a first sweep) with another discount
+        # factor, then the public gamma attribute is set to g before the measured sweep
+        g0 = rng.choice([x for x in gammas if x != g] or [g]) if rng.random() < 0.5 else g
+        out.append({"seed": sub, "spec": spec, "g": str(g), "g0": str(g0), "V": [str(x) for x in V], "mb": mb, "bits": ref.max_bits})
     return out
 
 
 def job_of(c):
+    g0 = c.get("g0", c["g"])
+    pre = [["solve", 1], ["set_gamma", fl(c["g"])]] if g0 != c["g"] else []
     return {"kind": "solve_ops", "problem": c["spec"], "solver": "vi",
-            "config": {"gamma": fl(c["g"]), "epsilon": fl(EPS), "max_batch_size": c["mb"]},
-            "ops": [["set_values", c["V"]], ["extract_policy"], ["solve", 1]]}
+            "config": {"gamma": fl(g0), "epsilon": fl(EPS), "max_batch_size": c["mb"]},
+            "ops": pre + [["set_values", c["V"]], ["extract_policy"], ["solve", 1]]}
 
 
 def oracle(c, r):
@@ -44,7 +49,7 @@ def oracle(c, r):
     ref = mdpgen.Ref(c["spec"])
     g = F(c["g"])
     V = fracs(c["V"])
-    o = r["obs"][3]
+    o = r["obs"][-1]
     tv = fracs(o["values"])
     want = ref.sweep(V, g)
     if tv != want:
@@ -52,7 +57,7 @@ def oracle(c, r):
         return f"sweep differs from the Bellman backup at states {bad}: got {[str(tv[i]) for i in bad]}, expected {[str(want[i]) for i in bad]}"
     if len(tv) != c["spec"]["nS"]:
         return "returned vector has the wrong length"
-    for label, pol, vec in (("policy after sweep", o["policy"], tv), ("policy extracted from injected values", r["obs"][2].get("policy"), V)):
+    for label, pol, vec in (("policy after sweep", o["policy"], tv), ("policy extracted from injected values", r["obs"][-2].get("policy"), V)):
         if pol is None:
             continue
         for s, a in enumerate(pol):
@@ -61,14 +66,15 @@ def oracle(c, r):
             qs = [ref.q(vec, s, b, g) for b in range(c["spec"]["nA"])]
             if qs[a] != max(qs):
                 return f"{label}: state {s} action {a} has value {qs[a]} < max {max(qs)}"
-    if o["iteration"] != 1:
-        return f"iteration is {o['iteration']} after one sweep"
+    want_it = 2 if c.get("g0", c["g"]) != c["g"] else 1
+    if o["iteration"] != want_it:
+        return f"iteration is {o['iteration']} after {want_it} sweep(s)"
     return None
 
 
 def coq_item(c, r, k, devices):
-    o = r["obs"][3]
-    ext = r["obs"][2].get("policy")
+    o = r["obs"][-1]
+    ext = r["obs"][-2].get("policy")
     n = c["spec"]["nS"]
     pre = (f"Definition M{k} := {coq_mdp(c['spec'])}.\n"
            f"Definition V{k} := {qlist(c['V'])}.\nDefinition TV{k} := {qlist(o['values'])}.\n")
@@ -102,7 +108,7 @@ def run(ctx, build, gammas=None, devices_list=None):
                 viols.append({"key": f"sweep:{c['seed']}:{dv}", "what": why, "input": {"case": c, "devices": dv}})
             if "error" in r:
                 continue
-            if r["obs"][2].get("skipped"):
+            if r["obs"][-2].get("skipped"):
                 skipped_extract += 1
             items.append(coq_item(c, r, k, dv))
             idx.append(k)
@@ -128,6 +134,7 @@ def run(ctx, build, gammas=None, devices_list=None):
                      "gamma": c["g"], "V": c["V"], "max_batch_size": c["mb"], "bits": c["bits"]} for c in cs[:5]],
         "traces_validated_against_impl": total,
         "families": fam, "gammas": sorted({c["g"] for c in cs}), "device_counts": devices_list,
+        "cases_with_gamma_reassigned_after_first_trace": sum(1 for c in cs if c.get("g0", c["g"]) != c["g"]),
         "padded_last_batch_cases": sum(1 for c in cs if c["spec"]["nS"] % min(c["mb"], c["spec"]["nS"]) != 0),
         "private_extract_route_skipped": skipped_extract,
         "trusted_base_extra": ["values injected through the public attribute solver.values; greedy(V) for arbitrary V observed through the private _extract_policy when it exists"],
